@@ -95,205 +95,63 @@ def mod_test(test, expect_ne=True):
     return linform(inner, HKL)
 
 
-def extract_slot_model(rel):
-    """-> ordered list of ops:
-         ('flag', slot, [guard forms], form)          absent-flag when form % syscond[slot] != 0
-         ('all3', slot, [guard forms], [f1, f2, f3])  type := 0 if all divisible else nonzero (overrides earlier flags)
-    """
-    mod = core.module(rel)
-    fn = mod.func("sysabs_unique")
-    body = core.body_wo_doc(fn)
-    ops = []
-    seen_init = False
+class AbsenceModel:
+    """the decision of sysabs(hkl, syscond, crystal_system, cell_choice) for static (syscond, crystal_system, cell_choice),
+    as a residual expression in h, k, l obtained by partial evaluation of the source (E8, xfabsa/intflow.py): whatever the
+    helper functions, loops over permutations, flags and early exits look like"""
 
-    def slot_if(st, guards):
-        i = is_syscond_test(st.test)
-        if i is None or st.orelse:
-            raise AnalysisError("%s sysabs_unique: statement `%s` is not a slot rule" % (rel, core.unparse(st.test)))
-        b = st.body
-        # ordinary slot
-        if len(b) == 2 and isinstance(b[0], ast.Assign) and core.unparse(b[0]).replace(" ", "") == "condition=syscond[%d]" % i \
-                and isinstance(b[1], ast.If) and not b[1].orelse:
-            f = mod_test(b[1].test, True)
-            inner = b[1].body
-            if f is not None and len(inner) == 1 and isinstance(inner[0], ast.Assign) \
-                    and core.unparse(inner[0].targets[0]) == "sysabs_type" and isinstance(inner[0].value, ast.Constant) \
-                    and inner[0].value.value != 0:
-                ops.append(("flag", i, list(guards), f))
-                return
-        # the all-three slot
-        if len(b) == 3 and isinstance(b[0], ast.Assign) and core.unparse(b[0].targets[0]) == "sysabs_type" \
-                and isinstance(b[0].value, ast.Constant) and b[0].value.value != 0 \
-                and core.unparse(b[1]).replace(" ", "") == "condition=syscond[%d]" % i and isinstance(b[2], ast.If):
-            forms = []
-            node = b[2]
-            while True:
-                f = mod_test(node.test, False)
-                if f is None or node.orelse:
-                    raise AnalysisError("%s sysabs_unique: slot %d has an unrecognised shape" % (rel, i))
-                forms.append(f)
-                if len(node.body) == 1 and isinstance(node.body[0], ast.If):
-                    node = node.body[0]
-                    continue
-                if len(node.body) == 1 and isinstance(node.body[0], ast.Assign) and isinstance(node.body[0].value, ast.Constant) \
-                        and node.body[0].value.value == 0:
-                    break
-                raise AnalysisError("%s sysabs_unique: slot %d has an unrecognised shape" % (rel, i))
-            ops.append(("all3", i, list(guards), forms))
-            return
-        raise AnalysisError("%s sysabs_unique: slot %d has an unrecognised shape" % (rel, i))
+    def __init__(self, rel):
+        self.rel = rel
+        self.mod = core.module(rel)
+        self.mod.func("sysabs")
+        self.mod.func("sysabs_unique")
+        self._src = {}
 
-    def walk(stmts, guards):
-        for st in stmts:
-            if isinstance(st, ast.If):
-                if is_syscond_test(st.test) is not None:
-                    slot_if(st, guards)
-                    continue
-                g = guard_equalities(st.test)
-                if g is None or st.orelse:
-                    raise AnalysisError("%s sysabs_unique: `%s` is neither a class guard nor a slot test"
-                                        % (rel, core.unparse(st.test)))
-                walk(st.body, guards + g)
-                continue
-            raise AnalysisError("%s sysabs_unique: unexpected statement `%s` inside the rule list" % (rel, core.unparse(st)[:50]))
-    i0 = 0
-    for idx, st in enumerate(body):
-        txt = core.unparse(st).replace(" ", "")
-        if txt in ("(h,k,l)=hkl", "h,k,l=hkl"):
-            i0 = idx + 1
-        elif txt == "sysabs_type=0":
-            seen_init = True
-            i0 = idx + 1
-    rules = body[i0:]
-    if not seen_init or not rules or not isinstance(rules[-1], ast.Return) \
-            or core.unparse(rules[-1].value) != "sysabs_type":
-        raise AnalysisError("%s sysabs_unique: prologue/epilogue not recognised" % rel)
-    walk(rules[:-1], [])
-    return ops
+    def residual(self, syscond, crystal_system, cell_choice):
+        key = (tuple(syscond), crystal_system, cell_choice)
+        if key not in self._src:
+            from xfabsa.intflow import Specialiser, Dyn, src
+            hkl = [Dyn("h"), Dyn("k"), Dyn("l")]
+            fn = self.mod.func("sysabs")
+            params = [a.arg for a in fn.args.args]
+            args = [hkl, list(syscond)]
+            kw = {}
+            if "crystal_system" in params:
+                kw["crystal_system"] = crystal_system
+            if "cell_choice" in params:
+                kw["cell_choice"] = cell_choice
+            sp = Specialiser(self.mod)
+            self._src[key] = src(sp.call_def(fn, args, kw, {}))
+        return self._src[key]
+
+    def slots_read(self, nslots=26):
+        """condition slots whose value the decision depends on (for some crystal system)"""
+        out = set()
+        for i in range(nslots):
+            v = [0] * nslots
+            v[i] = 2
+            for cs in ("triclinic", "cubic", "trigonal"):
+                for cc in ("standard", "rhombohedral"):
+                    if self.residual(v, cs, cc) != self.residual([0] * nslots, cs, cc):
+                        out.add(i)
+        return out
+
+
+_COMPILED = {}
+
+
+def absent_fn(residual_src):
+    """compiled residual (cached per process): h -> True when the reflection is declared absent"""
+    f = _COMPILED.get(residual_src)
+    if f is None:
+        from xfabsa.intflow import residual_function
+        g = residual_function(residual_src)
+        f = _COMPILED[residual_src] = (lambda h, g=g: bool(g(h[0], h[1], h[2])))
+    return f
 
 
 def dotf(f, h):
     return f[0] * h[0] + f[1] * h[1] + f[2] * h[2]
-
-
-def model_unique(ops, syscond, h):
-    """the slot model interpreted on one hkl: True = absent"""
-    t = False
-    for op in ops:
-        kind, slot, guards, form = op
-        if slot >= len(syscond):
-            raise AnalysisError("syscond has only %d slots, rule needs slot %d" % (len(syscond), slot))
-        c = syscond[slot]
-        if c == 0:
-            continue
-        if any(dotf(g, h) != 0 for g in guards):
-            continue
-        if kind == "flag":
-            if abs(dotf(form, h)) % c != 0:
-                t = True
-        else:
-            t = not all(abs(dotf(f, h)) % c == 0 for f in form)
-    return t
-
-
-def extract_schedules(rel):
-    """sysabs: -> ordered dispatch arms [(dump of test, test ast, [perm...])], each perm a 3-tuple of linear forms in hkl"""
-    mod = core.module(rel)
-    fn = mod.func("sysabs")
-    body = core.body_wo_doc(fn)
-    p_hkl, p_sys = fn.args.args[0].arg, fn.args.args[1].arg
-    names = {p_hkl: [(1, 0, 0), (0, 1, 0), (0, 0, 1)]}
-
-    def is_unique_call(node, arg_is_hkl):
-        if not (isinstance(node, ast.Call) and getattr(node.func, "id", "") == "sysabs_unique" and len(node.args) == 2
-                and isinstance(node.args[1], ast.Name) and node.args[1].id == p_sys):
-            return False
-        a = node.args[0]
-        if arg_is_hkl:
-            return isinstance(a, ast.Name) and a.id == p_hkl
-        return isinstance(a, ast.List) and [getattr(e, "id", None) for e in a.elts] == ["h", "k", "l"]
-
-    if not (isinstance(body[0], ast.Assign) and is_unique_call(body[0].value, True)):
-        raise AnalysisError("%s sysabs: does not start with sys_type = sysabs_unique(hkl, syscond)" % rel)
-    res = body[0].targets[0].id
-
-    def chain(stmts):
-        """if res == 0: h=..;k=..;l=..; res = sysabs_unique([h,k,l], syscond); [nested]"""
-        perms = []
-        cur = stmts
-        while cur:
-            if len(cur) != 1 or not isinstance(cur[0], ast.If) or cur[0].orelse:
-                raise AnalysisError("%s sysabs: schedule has an unrecognised shape" % rel)
-            t = cur[0].test
-            if core.unparse(t).replace(" ", "") != "%s==0" % res:
-                raise AnalysisError("%s sysabs: schedule step is not guarded by `%s == 0`" % (rel, res))
-            b = cur[0].body
-            loc = {}
-            k = 0
-            while k < len(b) and isinstance(b[k], ast.Assign) and isinstance(b[k].targets[0], ast.Name) and b[k].targets[0].id in "hkl":
-                loc[b[k].targets[0].id] = linform(b[k].value, names)
-                k += 1
-            if sorted(loc) != ["h", "k", "l"] or k >= len(b) or not (isinstance(b[k], ast.Assign) and b[k].targets[0].id == res
-                                                                  and is_unique_call(b[k].value, False)):
-                raise AnalysisError("%s sysabs: schedule step does not set h, k, l and call sysabs_unique([h,k,l], syscond)" % rel)
-            perms.append((loc["h"], loc["k"], loc["l"]))
-            cur = b[k + 1:]
-        return perms
-    if len(body) != 3 or not isinstance(body[1], ast.If) or not isinstance(body[2], ast.Return) \
-            or core.unparse(body[2].value) != res:
-        raise AnalysisError("%s sysabs: expected dispatch statement and `return %s`" % (rel, res))
-    arms = []
-    node = body[1]
-    while True:
-        check_dispatch_test(node.test, rel)
-        arms.append((ast.dump(node.test), node.test, chain(node.body)))
-        if len(node.orelse) == 1 and isinstance(node.orelse[0], ast.If):
-            node = node.orelse[0]
-            continue
-        if node.orelse:
-            raise AnalysisError("%s sysabs: dispatch has a final else arm" % rel)
-        break
-    return arms
-
-
-def check_dispatch_test(t, rel):
-    """dispatch tests are boolean combinations of `cell_choice|crystal_system ==|!= '<literal>'`"""
-    if isinstance(t, ast.BoolOp):
-        for v in t.values:
-            check_dispatch_test(v, rel)
-        return
-    if isinstance(t, ast.Compare) and len(t.ops) == 1 and isinstance(t.ops[0], (ast.Eq, ast.NotEq)) \
-            and isinstance(t.left, ast.Name) and t.left.id in ("cell_choice", "crystal_system") \
-            and isinstance(t.comparators[0], ast.Constant) and isinstance(t.comparators[0].value, str):
-        return
-    raise AnalysisError("%s sysabs: dispatch test `%s` is not a comparison of cell_choice/crystal_system with a literal"
-                        % (rel, core.unparse(t)))
-
-
-def eval_dispatch(t, crystal_system, cell_choice):
-    if isinstance(t, ast.BoolOp):
-        vals = [eval_dispatch(v, crystal_system, cell_choice) for v in t.values]
-        return all(vals) if isinstance(t.op, ast.And) else any(vals)
-    v = {"cell_choice": cell_choice, "crystal_system": crystal_system}[t.left.id]
-    r = v == t.comparators[0].value
-    return r if isinstance(t.ops[0], ast.Eq) else not r
-
-
-def schedule_for(arms, crystal_system, cell_choice):
-    for _d, t, perms in arms:
-        if eval_dispatch(t, crystal_system, cell_choice):
-            return perms
-    return []
-
-
-def model_absent(ops, schedules, syscond, crystal_system, cell_choice, h):
-    if model_unique(ops, syscond, h):
-        return True
-    for p in schedule_for(schedules, crystal_system, cell_choice):
-        hp = tuple(dotf(f, h) for f in p)
-        if model_unique(ops, syscond, hp):
-            return True
-    return False
 
 
 # ---------------------------------------------------------------------------
